@@ -81,6 +81,9 @@ class Serial:
     def reset_input_buffer(self):
         self.log.append(('flush',))
 
+    def flush(self):
+        self.log.append(('drain',))
+
     def write(self, data):
         self.log.append(('write', bytes(data)))
         r = self.write_result
